@@ -79,6 +79,26 @@ def run(ctx):
     ctx.model_check("MC_Hwm", "MC_Hwm_quick.cfg", workers=8, timeout=900)
     ctx.model_check("MC_Session", "MC_Session_quick.cfg", workers=8, timeout=900)
     ctx.exhaustive = True
+    # the session's write queue: the pending-message count it compares with SNDHWM, under every split of
+    # the written bytes over the queued chunks (Egress.tla, every history of <= 5/6 operations)
+    eg = ctx.model_check("MC_Egress", "MC_Egress_thorough.cfg" if thorough else "MC_Egress_export.cfg", workers=8, timeout=1800)
+    if not eg.replays:
+        raise vlib.ToolError("no write-queue histories exported")
+    ep, eo = os.path.join(ctx.work, "egress.jsonl"), os.path.join(ctx.work, "egress.out")
+    vlib.write_jsonl(ep, eg.replays)
+    vlib.vh(["egress", ep, eo], timeout=900)
+    er = json.load(open(eo))
+    ctx.traces += er["runs"]
+    ctx.extra["write_queue_steps_replayed"] = er["steps"]
+    ctx.sample({"from": "MC_Egress", "history": eg.replays[len(eg.replays) // 2]})
+    for o in er["outcomes"][:20]:
+        for i in o["issues"]:
+            ctx.violation("C14:write-queue:%s" % i["code"], i["detail"], {"kind": "tlc-behaviour", "module": "MC_Egress", "behaviour": eg.replays[o["index"]], "issue": i})
+    vlib.vh(["egress", ep, eo, "--perturb"], timeout=900)
+    e2 = json.load(open(eo))
+    ctx.selftest["perturbed_write_queue_expectation_rejected"] = "%d/%d" % (e2["with_issues"], e2["runs"])
+    if e2["with_issues"] != e2["runs"]:
+        raise vlib.ToolError("binding self-test failed: a wrong pending count was accepted for %d write-queue histories" % (e2["runs"] - e2["with_issues"]))
     scs = []
     for (tx, rx) in [("PUSH", "PULL"), ("DEALER", "ROUTER")]:
         for timeo in [0, 300, -1]:
